@@ -30,7 +30,10 @@ ORIG_LOCALS = {
     "keyify": ['args', 'key', 'x'],
     "CornerDataContainer.append": ['val_elem', 'val_adj', 'attr'],
     "RawMeshData.prepare": [],
-    "RawMeshData._prepare_vertices": ['iv'],
+    "RawMeshData._prepare_vertices": ['iv', 'v'],
+    "_plain_row": ['row', 'x'],
+    "RawMeshData._prepare_faces": ['iF'],
+    "RawMeshData._prepare_cells": ['iC'],
     "RawMeshData._prepare_edges": ['N', 'is_valid', 'a', 'b', 'edges_invalid', 'new_edges', 'new_attrs', 'old_attrs',
                                    'attr_name', 'n', 'ie', 'name'],
     "RawMeshData._generate_face_corners": ['nc', 'nf', 'f', 'iF', 'F', 'v'],
@@ -345,17 +348,51 @@ def gen():
             steps.append("(GAlways, %s)" % step_of(s))
     defs.append("(* RawMeshData.prepare: the steps in source order, with the config switch gating each *)\n"
                 "Definition prepare_steps : list (gate * step) :=\n  [" + ";\n   ".join(steps) + "].")
-    for nm in ("_prepare_faces", "_prepare_cells"):
+    # index rows are stored as tuples of Python ints (values unchanged: nothing to model, but the shape is pinned)
+    pr_ = fdef(tree, "_plain_row", MD)
+    parts.append(("_plain_row", T.sha(src, pr_)))
+    bb = T.body_nodoc(pr_)
+    if not (len(pr_.args.args) == 1 and len(bb) == 1 and isinstance(bb[0], ast.Return)
+            and ast.unparse(bb[0].value) == "tuple((int(x) for x in %s))" % pr_.args.args[0].arg):
+        T.fail(MD, pr_, "_plain_row is not `return tuple(int(x) for x in row)`")
+    for nm, cont, idr in (("_prepare_faces", "faces", "id_faces"), ("_prepare_cells", "cells", "id_cells")):
         f = fdef(tree, "RawMeshData." + nm, MD)
         bb = T.body_nodoc(f)
-        if not (len(bb) == 1 and isinstance(bb[0], ast.Pass)):
-            T.fail(MD, f, nm + " is not `pass`")
+        if not (len(bb) == 1 and isinstance(bb[0], ast.For) and ast.unparse(bb[0].iter) == "self." + idr
+                and len(bb[0].body) == 1 and ast.unparse(bb[0].body[0]) ==
+                "self.%s[%s] = _plain_row(self.%s[%s])" % (cont, bb[0].target.id, cont, bb[0].target.id)):
+            T.fail(MD, f, nm + " is not the cast of every row to a tuple of ints")
+    # vertices: float array, 2-D points padded, Vec
     f = fdef(tree, "RawMeshData._prepare_vertices", MD)
+    parts.append(("RawMeshData._prepare_vertices", T.sha(src, f)))
     bb = T.body_nodoc(f)
     if not (len(bb) == 1 and isinstance(bb[0], ast.For) and ast.unparse(bb[0].iter) == "self.id_vertices"
-            and len(bb[0].body) == 1 and ast.unparse(bb[0].body[0]) ==
-            "self.vertices[%s] = Vec(self.vertices[%s]).copy()" % (bb[0].target.id, bb[0].target.id)):
-        T.fail(MD, f, "_prepare_vertices is not the Vec cast (followed by .copy(): own buffer, same coordinates) of every vertex")
+            and len(bb[0].body) == 3):
+        T.fail(MD, f, "_prepare_vertices: unexpected structure")
+    iv = bb[0].target.id
+    s0, s1, s2 = bb[0].body
+    if ast.unparse(s0) != "v = np.array(self.vertices[%s], dtype=float)" % iv:
+        T.fail(MD, s0, "_prepare_vertices: the point is not read as a float array")
+    if ast.unparse(s2) != "self.vertices[%s] = Vec(v)" % iv:
+        T.fail(MD, s2, "_prepare_vertices: the point is not stored as Vec(v)")
+    ok = (isinstance(s1, ast.If) and not s1.orelse and len(s1.body) == 1 and isinstance(s1.test, ast.Compare)
+          and ast.unparse(s1.test.left) == "v.shape" and len(s1.test.ops) == 1 and isinstance(s1.test.comparators[0], ast.Tuple)
+          and len(s1.test.comparators[0].elts) == 1)
+    if not ok:
+        T.fail(MD, s1, "_prepare_vertices: padding test is not `v.shape <cmp> (k,)`")
+    cmpz = ast.Compare(left=ast.Name(id="w", ctx=ast.Load()), ops=s1.test.ops, comparators=[s1.test.comparators[0].elts[0]])
+    padv = _assign(s1.body[0], "v")
+    if not (padv is not None and _is_call(padv, "np.append", 2) and ast.unparse(padv.args[0]) == "v"):
+        T.fail(MD, s1, "_prepare_vertices: padding is not `v = np.append(v, <values>)`")
+    vals = padv.args[1].elts if isinstance(padv.args[1], (ast.List, ast.Tuple)) else [padv.args[1]]
+    zs = []
+    for x in vals:
+        if not (isinstance(x, ast.Constant) and isinstance(x.value, (int, float)) and float(x.value) == int(x.value)):
+            T.fail(MD, x, "_prepare_vertices: padding value is not an integral constant")
+        zs.append(str(int(x.value)) if x.value >= 0 else "(%d)" % int(x.value))
+    defs.append("(* _prepare_vertices: a point of width w is padded when ..., with these coordinates *)\n"
+                "Definition pv_pad_needed (w : Z) : bool := %s.\nDefinition pv_pad_values : list Z := [%s]."
+                % (Tr(MD, {"w": "w"}).b(cmpz), "; ".join(zs)))
 
     # --- _prepare_edges
     pe = fdef(tree, "RawMeshData._prepare_edges", MD)
@@ -379,8 +416,8 @@ def gen():
     # else branch: keyify in place
     eb = br.orelse
     if not (len(eb) == 1 and isinstance(eb[0], ast.For) and ast.unparse(eb[0].iter) == "self.id_edges"
-            and len(eb[0].body) == 1 and ast.unparse(eb[0].body[0]) ==
-            "self.edges[%s] = utils.keyify(self.edges[%s])" % (eb[0].target.id, eb[0].target.id)):
+            and [ast.unparse(x) for x in eb[0].body] ==
+            ["a, b = self.edges[%s]" % eb[0].target.id, "self.edges[%s] = utils.keyify(int(a), int(b))" % eb[0].target.id]):
         T.fail(MD, br, "_prepare_edges: else branch is not the in-place keyify of every edge")
     # then branch: rebuild
     tb = br.body
@@ -409,7 +446,7 @@ def gen():
             and ast.unparse(fe.body[1].test) == "is_valid(a, b)" and not fe.body[1].orelse):
         T.fail(MD, fe, "_prepare_edges: edge loop has an unexpected shape")
     ib2 = fe.body[1].body
-    if not (len(ib2) == 3 and ast.unparse(ib2[0]) == "new_edges.append(utils.keyify(a, b))"
+    if not (len(ib2) == 3 and ast.unparse(ib2[0]) == "new_edges.append(utils.keyify(int(a), int(b)))"
             and isinstance(ib2[1], ast.For) and ast.unparse(ib2[2]) == "n += 1"):
         T.fail(MD, fe.body[1], "_prepare_edges: valid-edge block has an unexpected shape")
     fn = ib2[1]
